@@ -1228,7 +1228,6 @@ func analyze(d *decl) {
 	g.resultMapV[d.fn] = s.retMap
 }
 
-
 // Result of one run.
 type Result struct {
 	ResultOrd  map[*types.Func][]Ord
